@@ -24,6 +24,8 @@ Decides:
                    everything reachable from run_inner - wraps at).
  K  marker scope   the completion scanner sees an item only after the `--` test (an escaped word spelled like a marker is a positional);
                    check_next(ordinary item) is false (table).
+ H help is output  a failed adjacent group hands the caller its own scope back (a help flag typed before the group is still found: stdout / 0,
+                   shared with C10); the completion decision is taken after tokenizing (shared with C10).
 Does not decide: byte equality of the text across the process boundary."""
 import re
 from core import *
@@ -34,7 +36,7 @@ from absint import Walker, UNKNOWN, pkey, show
 LEVEL = 'other'
 EXPLANATION = __doc__
 ASSUMPTIONS = ['std::io::_print writes to stdout and _eprint to stderr; process::exit(n) terminates with status n']
-FLOORS = {'X.exit-table': 3, 'S.stream-table': 6, 'R.run-flow': 10, 'A.argv0': 6, 'W.who': 12, 'N.non-empty': 17, 'U.usage-fallback': 1, 'K.completion-marker': 1, 'K.colour': 1, 'W.width-agreement': 1}
+FLOORS = {'X.exit-table': 3, 'S.stream-table': 6, 'R.run-flow': 10, 'A.argv0': 6, 'W.who': 12, 'N.non-empty': 17, 'U.usage-fallback': 1, 'K.completion-marker': 1, 'K.colour': 1, 'W.width-agreement': 1, 'H.help-is-output': 2}
 
 EXIT_TABLE = {
     'info::OptionParser::<T>::run': 'documented: print the failure and exit with its code',
